@@ -386,6 +386,60 @@ pub fn run_block(o: &Opts) {
                 }
             }
         }
+        // batches with duplicates inside (the property speaks of multisets): a batch whose LAST packet is a duplicate while
+        // an earlier one is new, on a decoder that has not solved yet and on one whose previous solve failed
+        for dsc in 0..o.usize("dups", 0) {
+            let rep = be.repair_packets(rng.random_range(0..500), (k + 40) as u32);
+            let mut sh = src.clone();
+            sh.shuffle(&mut rng);
+            let sparse = dsc % 2 == 0;
+            let mk = |tr: &mut Trace, next_dec: &mut u32| -> (u32, SourceBlockDecoder) {
+                let mut dec = SourceBlockDecoder::new(0, &oti, f);
+                dec.set_sparse_threshold(if sparse { 0 } else { u32::MAX });
+                let id = *next_dec;
+                *next_dec += 1;
+                tr.emit(json!({"ev":"new","dec":id,"kind":"block","sbn":0,"sparse": sparse}));
+                (id, dec)
+            };
+            if dsc % 3 != 2 {
+                // K-1 symbols with a source symbol missing, then [new, duplicate] (or [duplicate, new]) in one call
+                let nsrc = if k > 1 { rng.random_range(0..k) } else { 0 };
+                let mut first: Vec<EncodingPacket> = sh[..nsrc.min(k.saturating_sub(1))].to_vec();
+                first.extend(rep.iter().take(k.saturating_sub(1) - first.len()).cloned());
+                let newp = rep[k + 3].clone();
+                let (id, mut dec) = mk(&mut tr, &mut next_dec);
+                if !first.is_empty() {
+                    deliver_block(&mut tr, id, &mut dec, &first);
+                }
+                let dup = first.first().cloned().unwrap_or_else(|| newp.clone());
+                let batch = if dsc % 3 == 0 { vec![newp.clone(), dup.clone()] } else { vec![dup.clone(), newp.clone()] };
+                deliver_block(&mut tr, id, &mut dec, &batch);
+                deliver_block(&mut tr, id, &mut dec, &[dup]);
+            } else {
+                // look for a K-subset the decoder cannot solve, deliver it, then [new, duplicate] in one call, then everything again
+                let mut found: Option<Vec<EncodingPacket>> = None;
+                for _ in 0..400 {
+                    let mut pool: Vec<EncodingPacket> = sh.iter().take(k.saturating_sub(1)).cloned().chain(rep.iter().cloned()).collect();
+                    pool.shuffle(&mut rng);
+                    pool.truncate(k);
+                    let mut probe = SourceBlockDecoder::new(0, &oti, f);
+                    if pool.iter().any(|p| p.payload_id().encoding_symbol_id() >= k as u32) && probe.decode(pool.clone()).is_none() {
+                        found = Some(pool);
+                        break;
+                    }
+                }
+                if let Some(set) = found {
+                    let (id, mut dec) = mk(&mut tr, &mut next_dec);
+                    deliver_block(&mut tr, id, &mut dec, &set);
+                    let have: std::collections::HashSet<u32> = set.iter().map(|p| p.payload_id().encoding_symbol_id()).collect();
+                    let newp = rep.iter().find(|p| !have.contains(&p.payload_id().encoding_symbol_id())).unwrap().clone();
+                    deliver_block(&mut tr, id, &mut dec, &[newp.clone(), set[0].clone()]);
+                    let mut again = set.clone();
+                    again.push(newp);
+                    deliver_block(&mut tr, id, &mut dec, &again);
+                }
+            }
+        }
         // cross sets: one received set of K+o symbols (o = 0..3) decoded three ways - sparse back-end in one batch,
         // dense back-end in one batch in another order, sparse back-end with the last symbols one at a time.  For block
         // sizes above the rank oracle's reach the specification still demands one outcome per set and the original bytes.
